@@ -134,6 +134,33 @@ impl Property for C16 {
             }
             sc.params.insert("search_burst".into(), cnt);
         }
+        // a busy event loop: the node serves a stream of pings through a slow socket (each reply may
+        // stall up to 300 ms) while it bootstraps, an application polls its state and issues a search
+        // every 25 ms. Commands pile up behind the stalled loop, so state queries and searches are
+        // served in the loop turns right after the worker has finished - before the loop notices.
+        if !big && rng.chance(1, 12) {
+            sc.reals[0].read_only = false;
+            sc.net.stall_ppm = 300_000;
+            sc.net.stall_max_ms = 300;
+            let from = start + if sc.param("t_up") > 0 { sc.param("t_up") as u64 } else { 0 };
+            let span = 2_000 + 8 * sc.net.lat_max_ms;
+            let pa = probe_addr(v6, 0, 20_000);
+            let pid = rng.id20();
+            let mut k = 0u32;
+            let mut t = from;
+            while t < from + span {
+                k += 1;
+                sc.at(t, Op::Probe { from: pa, to: sc.reals[0].addr, msg: crate::exec::ProbeMsg::Bytes(ping(&[b'b', (k >> 8) as u8, k as u8], &pid)), timeout_ms: 0 });
+                if k % 8 == 0 {
+                    sc.at(t, Op::Search { node: 0, ih, announce: false });
+                }
+                if k % 3 == 0 {
+                    sc.at(t, Op::Sample { node: 0, table: false });
+                }
+                t += 7;
+            }
+            sc.params.insert("busy_loop".into(), 1);
+        }
         // late state samples: tell "never bootstrapped" (not this property) from "search never released"
         sc.at(100_000, Op::Sample { node: 0, table: false });
         sc.at(160_000, Op::Sample { node: 0, table: false });
@@ -220,7 +247,9 @@ impl Property for C16 {
             match end.get(step) {
                 None => v.violate("C16", "early_search_never_ends", run.end_ms, format!("search issued at {t0} ms (bootstrap completed at {boot_done} ms) has not ended by {} ms", run.end_ms)),
                 Some(te) => {
-                    if got != control {
+                    // (with a stalling socket answers are read late and time out: result sets are no
+                    // longer schedule-independent, so busy-loop runs are judged for termination only)
+                    if got != control && sc.param("busy_loop") == 0 {
                         let early_end = if *te < boot_done { format!(" and ended at {te} ms, before bootstrap completed") } else { String::new() };
                         v.violate("C16", "early_search_differs", *te, format!("search issued at {t0} ms (bootstrap completed at {boot_done} ms){early_end} yielded {:?}; the same search right after bootstrap yields {:?}", got, control));
                     }
@@ -237,6 +266,9 @@ impl Property for C16 {
         if sc.param("polling") != 0 {
             v.hit("state_polled_during_bootstrap");
         }
+        if sc.param("busy_loop") != 0 {
+            v.hit("busy_event_loop");
+        }
         if sc.param("search_burst") != 0 {
             v.hit("search_burst_across_completion");
         }
@@ -251,12 +283,12 @@ impl Property for C16 {
         v
     }
     fn rule(&self) -> &'static str {
-        "static loss-free network of 1..9 answering stubs (each naming all others) holding 0..3 unique peers each plus 0..4 silent stubs, or (1 run in 4) 10..16 answering stubs so that the node never re-bootstraps, peers on the 8 closest to the info-hash; in a third of the runs an application polls get_state/load_contacts/local_addr every 1..5 ms while the node bootstraps; a fresh real node with 1..3 contacts (+ optionally a dead one); in one run of three every contact is silent until a drawn instant (0.5..25 s), so the first bootstrap attempts fail and searches fall into the back-off pauses; 1..4 searches issued 0 ms .. 40 s after start (with silent stubs, 1 run in 6: plus one search per millisecond over the windows in which a 500 ms bucket round can end) (with/without announce); control = same search issued when bootstrapped() resolves. non-trivial = at least one search issued before bootstrap completion and the control search yields peers; distinct = distinct order digests"
+        "static loss-free network of 1..9 answering stubs (each naming all others) holding 0..3 unique peers each plus 0..4 silent stubs, or (1 run in 4) 10..16 answering stubs so that the node never re-bootstraps, peers on the 8 closest to the info-hash; in a third of the runs an application polls get_state/load_contacts/local_addr every 1..5 ms while the node bootstraps; a fresh real node with 1..3 contacts (+ optionally a dead one); in one run of three every contact is silent until a drawn instant (0.5..25 s), so the first bootstrap attempts fail and searches fall into the back-off pauses; 1..4 searches issued 0 ms .. 40 s after start (with silent stubs, 1 run in 6: plus one search per millisecond over the windows in which a 500 ms bucket round can end) (with/without announce); 1 run in 12: a busy event loop (pings answered through a socket that stalls up to 300 ms, state polled every 21 ms and a search issued every 56 ms while the node bootstraps; judged for termination only); control = same search issued when bootstrapped() resolves. non-trivial = at least one search issued before bootstrap completion and the control search yields peers; distinct = distinct order digests"
     }
     fn assumptions(&self) -> Vec<&'static str> {
         vec!["peer sets are compared as sets; the network is static and loss-free, as the property's comparison requires"]
     }
     fn required_reach(&self) -> Vec<&'static str> {
-        vec!["search_before_first_datagram", "several_early_searches", "slow_bootstrap", "search_after_bootstrap", "early_search_while_bootstrap_attempts_fail", "state_polled_during_bootstrap", "no_rebootstrap_network", "search_burst_across_completion"]
+        vec!["search_before_first_datagram", "several_early_searches", "slow_bootstrap", "search_after_bootstrap", "early_search_while_bootstrap_attempts_fail", "state_polled_during_bootstrap", "no_rebootstrap_network", "search_burst_across_completion", "busy_event_loop"]
     }
 }
